@@ -181,6 +181,19 @@ class RandomChooser:
             if cur_in and 0 in good and rng.random() < self.strategy[2]:
                 return 0
             return good[rng.randrange(len(good))]
+        if kind == 'hold':
+            # one long pre-emption: threads of one role are not scheduled during
+            # [start, start+length) while anybody else can run; sticky otherwise
+            pref, start, length, p = self.strategy[1:5]
+            if start <= sim.steps < start + length:
+                good = [i for i in range(n) if not options[i].role.startswith(pref)]
+                if good:
+                    if cur_in and 0 in good and rng.random() < p:
+                        return 0
+                    return good[rng.randrange(len(good))]
+            if cur_in and rng.random() < p:
+                return 0
+            return rng.randrange(n)
         if kind == 'rr':
             if cur_in and self._rr_left > 0:
                 self._rr_left -= 1
@@ -263,6 +276,9 @@ class Sim:
         self.live_hook = None
         self.atomic_tid = None    # thread whose scheduling points are suspended
         self.atomic_breaks = 0
+        self.park_requests = {}
+        self.wake_preds = {}
+        self.parks = 0
 
     # ---- sequence numbers -------------------------------------------------
     def stamp(self):
@@ -370,10 +386,24 @@ class Sim:
             s = t.state
             if s == RUNNABLE:
                 out.append(t)
-            elif s == WAITSTEP and t.wake_step <= steps:
-                t.state = RUNNABLE
-                out.append(t)
+            elif s == WAITSTEP:
+                if t.wake_step <= steps:
+                    t.state = RUNNABLE
+                    out.append(t)
+                else:
+                    pred = self.wake_preds.get(t.tid)
+                    if pred is not None and pred():
+                        del self.wake_preds[t.tid]
+                        t.state = RUNNABLE
+                        out.append(t)
         return out
+
+    def park_at_next_point(self, pred, max_steps):
+        """The calling thread will be held at its *next* scheduling point until
+        pred() becomes true, max_steps more steps have passed, or nothing else
+        can run - a state-triggered long pre-emption (for check-then-act
+        windows inside library calls)."""
+        self.park_requests[self.current.tid] = (pred, max_steps)
 
     def _choose(self, runnable, cur):
         n = len(runnable)
@@ -437,6 +467,16 @@ class Sim:
             self._try_interrupt()
         for h in self.step_hooks:
             h(self)
+        if self.park_requests and cur.tid in self.park_requests:
+            pred, n = self.park_requests.pop(cur.tid)
+            if not pred():
+                self.parks += 1
+                cur.state = WAITSTEP
+                cur.wake_step = self.steps + n
+                self.wake_preds[cur.tid] = pred
+                self._reschedule()
+                self.wake_preds.pop(cur.tid, None)
+                return
         runnable = self._runnable()
         if len(runnable) <= 1 and (not runnable or runnable[0] is cur):
             return
